@@ -234,11 +234,20 @@ func cniRun(c map[string]interface{}) map[string]interface{} {
 				pod.Annotations[k] = s
 			}
 		}
-		ctr := corev1.Container{Name: "c"}
-		if b, _ := m["eni"].(bool); b {
-			ctr.Resources.Requests = corev1.ResourceList{"tke.cloud.tencent.com/eni-ip": resource.MustParse("1")}
+		// containers: "eni_at" = index of the container that carries the ENI-IP request among "containers" (default: the
+		// only one)
+		n, at := int(Num(m, "containers")), int(Num(m, "eni_at"))
+		if n < 1 {
+			n = 1
 		}
-		pod.Spec.Containers = []corev1.Container{ctr}
+		b, _ := m["eni"].(bool)
+		for i := 0; i < n; i++ {
+			ctr := corev1.Container{Name: fmt.Sprintf("c%d", i)}
+			if b && i == at%n {
+				ctr.Resources.Requests = corev1.ResourceList{"tke.cloud.tencent.com/eni-ip": resource.MustParse("1")}
+			}
+			pod.Spec.Containers = append(pod.Spec.Containers, ctr)
+		}
 		return pod
 	}
 	current, cached := map[string]*corev1.Pod{}, map[string]*corev1.Pod{}
